@@ -93,6 +93,9 @@ Judge(e) ==
      [] e.event = "Pack" -> JudgePack(e)
      [] e.event = "Mark" -> JudgeMark(e)
      [] e.event = "UnMark" -> JudgeUnMark(e)
+     [] e.event = "FullPoolReorg" ->     \* a reorg while the pool is at its size limit (compact event)
+          Tag(e.pendingAgain = e.block, "Inv.ReorgPending.full-pool") \o
+          Tag(e.stillExecuted = 0, "Inv.ReorgNotExecuted.full-pool")
      [] OTHER -> <<>>) \o JudgeState(e.state)
 
 TraceInit == /\ l = 1 /\ bad = <<>> /\ T = <<>> /\ nonceOf = <<>> /\ pending = <<>> /\ executed = {}
